@@ -362,13 +362,17 @@ class PathTerms:
     calls (their own branches become ('if', c, a, b) terms), reads from the byte stream become the symbol named by `word`."""
 
     def __init__(self, where: str, stream: Optional[str], word: str = '$w', max_paths: int = 256, max_depth: int = 8,
-                 resolver: Optional[Callable[[str], Optional[Tuple[ast.FunctionDef, int]]]] = None):
+                 resolver: Optional[Callable[[str], Optional[Tuple[ast.FunctionDef, int]]]] = None, helper_asserts: bool = False):
         """resolver(dotted callee name) -> (function definition, number of leading parameters already bound by the call form, e.g. 1 for
         `self.h(...)` on a plain method) for helpers defined outside the function (methods, module-level functions); None = opaque."""
         self.where, self.stream, self.word = where, stream, word
         self.max_paths, self.max_depth = max_paths, max_depth
         self.resolver = resolver
         self.reads: List[Tuple[str, int]] = []
+        # helper_asserts: the `assert`s of a substituted helper are added to the asserts of the path whose statement calls it, as
+        # (not <conditions of the helper path>) || <assertion> over the caller's terms (default off: they are dropped, as before)
+        self.helper_asserts = helper_asserts
+        self._cur: Optional[TermPath] = None
 
     def fail(self, node: Optional[ast.AST], msg: str):
         raise AnalysisError(f'{self.where} (line {getattr(node, "lineno", 0)}): {msg}')
@@ -445,7 +449,13 @@ class PathTerms:
         inner_env.update(bound)
         start = TermPath()
         start.env = inner_env
+        caller = self._cur
         paths = self.block(fn.body, [start], depth + 1)
+        self._cur = caller
+        if self.helper_asserts and caller is not None:
+            for p in paths:
+                for a in p.asserts:
+                    caller.asserts.append(('bin', '||', ('un', '!', conj(p.conds)), a) if p.conds else a)
         out: Optional[tuple] = None
         for p in reversed(paths):
             if p.writes:
@@ -484,6 +494,7 @@ class PathTerms:
 
     def stmt(self, st: ast.stmt, p: TermPath, depth: int) -> List[TermPath]:
         env = p.env
+        self._cur = p
         if isinstance(st, ast.FunctionDef):
             env[st.name] = _Closure(st)
             return [p]
